@@ -384,13 +384,15 @@ def check(payload):
                 add(vs)
                 digs.append(digest(hist, finals))
         else:  # diff: session A vs session B (failing parses deleted)
-            r = random.Random(payload["seed"])
-            for _ in range(payload["n"]):
+            r = random.Random(payload.get("seed", 0))
+            for _ in range(payload.get("n", 1)):
                 std = r.choice(["f2003", "f2008"])
                 ops = []
                 for _ in range(r.randint(2, 7)):
                     kind = "valid" if r.random() < 0.5 else "invalid"
                     ops.append(("parse", kind, r.randrange(len(pr[kind]))))
+                if payload["mode"] == "diffone":
+                    std, ops = payload["std"], [tuple(o) for o in payload["ops"]]
                 fp.SYMBOL_TABLES.clear()
                 create(std)
                 obsA = [observe(pr[o[1]][o[2]]) for o in ops]
